@@ -334,6 +334,8 @@ struct Ctx {
     snap_estate: Option<EnforcementState>,
     snap_node: Option<NodeSnap>,
     dummy_sig: Signature,
+    ftx: Transaction,
+    funding_outpoint: OutPoint,
 }
 
 fn payee() -> PublicKey {
@@ -440,6 +442,8 @@ impl Ctx {
             snap_estate: None,
             snap_node: None,
             dummy_sig,
+            ftx: ftx.clone(),
+            funding_outpoint,
         };
         if ctx.setup_res.0 != "ok" {
             return ctx;
@@ -469,27 +473,74 @@ impl Ctx {
             }
         }
         // chain: feed the blocks to the channel's monitor
-        let blocks = chain["blocks"].as_u64().unwrap();
-        let fund_at = chain["fund_at"].as_u64().unwrap();
-        let close_at = chain["close_at"].as_u64().unwrap();
+        ctx.chain_to(&json!({"blocks": 0, "fund_at": 0, "close_at": 0}), chain);
         let monitor = ctx.monitor.as_ref().expect("monitor");
-        for b in 1..=blocks {
-            let mut txs = vec![];
-            if b == fund_at {
-                txs.push(ftx.clone());
-            }
-            if b == close_at {
-                txs.push(closing_tx(&funding_outpoint));
-            }
-            let hash = BlockHash::from_slice(&[b as u8; 32]).unwrap();
-            catch(|| monitor.on_add_block(&txs, &hash)).expect("on_add_block");
-        }
         let cst = monitor.as_base().as_chain_state();
         ctx.cstate = json!([cst.current_height, cst.funding_depth, cst.closing_depth]);
         ctx.snap_estate =
             Some(ctx.fx.node.with_channel(&ctx.id, |chan| Ok(chan.enforcement_state.clone())).unwrap());
         ctx.snap_node = Some(node_snap(&ctx.fx.node.get_state()));
         ctx
+    }
+
+    fn block_txs(&self, chain: &Value, b: u64) -> Vec<Transaction> {
+        let mut txs = vec![];
+        if b == chain["fund_at"].as_u64().unwrap() {
+            txs.push(self.ftx.clone());
+        }
+        if b == chain["close_at"].as_u64().unwrap() {
+            txs.push(closing_tx(&self.funding_outpoint));
+        }
+        txs
+    }
+
+    /// move the channel's chain monitor from the chain `from` to the chain `to` (block b of a
+    /// chain holds the funding tx iff b = fund_at, a spend of the funding output iff b =
+    /// close_at): disconnect the blocks after the common prefix, connect the new ones
+    fn chain_to(&self, from: &Value, to: &Value) {
+        let monitor = self.monitor.as_ref().expect("monitor");
+        let nf = from["blocks"].as_u64().unwrap();
+        let nt = to["blocks"].as_u64().unwrap();
+        let same = |b: u64| {
+            (b == from["fund_at"].as_u64().unwrap()) == (b == to["fund_at"].as_u64().unwrap())
+                && (b == from["close_at"].as_u64().unwrap()) == (b == to["close_at"].as_u64().unwrap())
+        };
+        let mut p = 0;
+        while p < nf.min(nt) && same(p + 1) {
+            p += 1;
+        }
+        let hash = |b: u64, c: &Value| {
+            let mut h = [b as u8; 32];
+            h[1] = c["fund_at"].as_u64().unwrap() as u8;
+            h[2] = c["close_at"].as_u64().unwrap() as u8;
+            BlockHash::from_slice(&h).unwrap()
+        };
+        let mut b = nf;
+        while b > p {
+            let txs = self.block_txs(from, b);
+            catch(|| monitor.on_remove_block(&txs, &hash(b, from))).expect("on_remove_block");
+            b -= 1;
+        }
+        for b in p + 1..=nt {
+            let txs = self.block_txs(to, b);
+            catch(|| monitor.on_add_block(&txs, &hash(b, to))).expect("on_add_block");
+        }
+    }
+
+    fn chain_state(&self) -> Value {
+        let cst = self.monitor.as_ref().expect("monitor").as_base().as_chain_state();
+        json!([cst.current_height, cst.funding_depth, cst.closing_depth])
+    }
+
+    fn request(&self, side: &str, n: u64, req: &Req) -> ((String, String, String), &'static str) {
+        if side == "cp" {
+            (self.sign_cp(n, req), "na")
+        } else {
+            match self.make_sigs(n, req) {
+                Some(sg) => (self.validate_holder_with(n, req, Some(sg)), "good"),
+                None => (("none".into(), "none".into(), "signatures unavailable".into()), "unavailable"),
+            }
+        }
     }
 
     fn restore(&self) {
@@ -515,6 +566,9 @@ fn run_case(ctxs: &mut HashMap<String, Ctx>, c: &Value) -> Value {
     let req = parse_req(&c["req"]);
     let pre_h = parse_req(&c["pre"]["holder"]);
     let pre_c = parse_req(&c["pre"]["cp"]);
+    if kind == "seq" {
+        return run_seq(c, &pol, &setup, n, side, &req, &pre_h, &pre_c);
+    }
     let key = digest(&json!([c["pol"], c["setup"], c["chain"], if kind == "setup" { 0 } else { n }, c["pre"]]));
     if !ctxs.contains_key(&key) {
         if ctxs.len() > 64 {
@@ -562,8 +616,46 @@ fn run_case(ctxs: &mut HashMap<String, Ctx>, c: &Value) -> Value {
         "pol": pol_json(&pol), "setup": setup_json(&setup), "chain": chain, "side": side, "n": n,
         "pre": {"holder": req_json(&pre_h), "cp": req_json(&pre_c)}, "req": req_json(&req),
         "obs": {"setup": setup_res.0, "setup_cls": setup_res.1, "open": open_res.0, "open_cls": open_res.1,
+                "res1": "none", "res1_cls": "none", "cstate2": [],
                 "res": res.0, "res_cls": res.1, "sig": sig, "cstate": cstate,
-                "msg": [setup_res.2, open_res.2, res.2]},
+                "msg": [setup_res.2, open_res.2, res.2, ""]},
+        "seq": {"on": false, "req1": req_json(&parse_req(&c["seq"]["req1"])), "chain2": c["seq"]["chain2"]},
+    })
+}
+
+/// kind "seq": open ; chain ; request1 ; the chain changes ; the same number again.  Its own
+/// context (the chain monitor is moved), nothing is snapshotted or shared.
+fn run_seq(c: &Value, pol: &Pol, setup: &Setup, n: u64, side: &str, req: &Req, pre_h: &Req, pre_c: &Req) -> Value {
+    let req1 = parse_req(&c["seq"]["req1"]);
+    let ctx = Ctx::new(pol, setup, &c["chain"], 1, &c["pre"]);
+    let mut res1 = ("none".to_string(), "none".to_string(), "".to_string());
+    let mut res = res1.clone();
+    let mut sig = "na";
+    let mut cstate2 = json!([]);
+    if ctx.setup_res.0 == "ok" && ctx.open_res.0 == "ok" {
+        let (r1, _) = ctx.request(side, n, &req1);
+        res1 = r1;
+        if res1.0 != "panic" {
+            ctx.chain_to(&c["chain"], &c["seq"]["chain2"]);
+            cstate2 = ctx.chain_state();
+            let (r2, k) = ctx.request(side, n, req);
+            res = r2;
+            sig = k;
+        }
+    }
+    let mut chain = c["chain"].clone();
+    chain["h0"] = json!(ctx.h0);
+    let mut chain2 = c["seq"]["chain2"].clone();
+    chain2["h0"] = json!(ctx.h0);
+    json!({
+        "id": c["id"], "fam": c["fam"], "why": c["why"], "kind": "seq",
+        "pol": pol_json(pol), "setup": setup_json(setup), "chain": chain, "side": side, "n": n,
+        "pre": {"holder": req_json(pre_h), "cp": req_json(pre_c)}, "req": req_json(req),
+        "obs": {"setup": ctx.setup_res.0, "setup_cls": ctx.setup_res.1, "open": ctx.open_res.0, "open_cls": ctx.open_res.1,
+                "res1": res1.0, "res1_cls": res1.1, "cstate2": cstate2,
+                "res": res.0, "res_cls": res.1, "sig": sig, "cstate": ctx.cstate,
+                "msg": [ctx.setup_res.2, ctx.open_res.2, res.2, res1.2]},
+        "seq": {"on": true, "req1": req_json(&req1), "chain2": chain2},
     })
 }
 
